@@ -972,6 +972,56 @@ func init() {
 			return x.resp
 		}
 
+		longest := 0
+		// callBuild: the table builder itself (x86.VerifBuild = build(opcode.Forms(), suffixes, ops), the body of every
+		// generated constructor) on an operand list the fixed-arity constructor cannot be given by name
+		callBuild := func(fn *c06Fn, ops []operand.Op, kind string) {
+			// opcode and suffix names: the suffix constants of the constructor body without their `sffx` prefix
+			// (an unknown name makes VerifBuild return (nil, nil): counted, nothing judged)
+			var sfxNames []string
+			for _, id := range fn.ctor.SfxConsts {
+				sfxNames = append(sfxNames, strings.TrimPrefix(id, "sffx"))
+			}
+			opcName := fn.name
+			if len(sfxNames) > 0 {
+				opcName = strings.TrimSuffix(fn.name, "_"+strings.Join(sfxNames, "_"))
+			}
+			resp := "err"
+			func() {
+				defer func() {
+					if recover() != nil {
+						resp = "panic"
+					}
+				}()
+				i, err := x86.VerifBuild(opcName, sfxNames, ops)
+				switch {
+				case err != nil:
+					resp = "err"
+				case i == nil:
+					resp = "nil"
+				default:
+					resp = c06EncInstr(i)
+				}
+			}()
+			if resp == "nil" {
+				hist["via-build-not-callable"]++
+				return
+			}
+			tuples++
+			hist[kind]++
+			hist["via-build"]++
+			opsTok := c06EncOps(ops)
+			o.emit(fmt.Sprintf("instr %d %d %s %s", fn.sfx[0], fn.sfx[1], fn.formsTok, opsTok), resp)
+			o.emit(fmt.Sprintf("accept-doc %s %s %s => %s", c06Hex(fn.name), fn.docTok, opsTok, resp), "ok")
+			hist["doc-checks"]++
+			if resp == "err" {
+				hist["rejected"]++
+			} else if strings.HasPrefix(resp, "ok ") {
+				hist["accepted"]++
+			} else {
+				hist["outcome-"+resp]++
+			}
+		}
 		derivedCalled := map[string]int{}
 		sample := func(fm *optabForm) ([]operand.Op, bool) {
 			var ops []operand.Op
@@ -1115,6 +1165,63 @@ func init() {
 			if len(fn.forms) > 0 && called == 0 {
 				hist["no-sample"]++
 			}
+			// operand-list LENGTHS far from the arity (round 10): a matching sample of an admitted form of arity a,
+			// extended to a+1, a+2, 255, 256, 256+a, 257, 512+a and 65536+a operands (an operand count that is narrowed
+			// to the table's 8- or 16-bit representation before it is compared wraps there).  Variadic functions take
+			// the list on all three layers by name; every other opcode takes it through x86.VerifBuild (what its
+			// constructor calls).  Judged like any call: exact model (`instr`), documentation, layers.
+			if len(fn.admitted) > 0 {
+				// one sample per distinct arity among the admitted forms
+				seenAr := map[int]bool{}
+				for _, k := range fn.admitted {
+					fm := &fn.forms[k]
+					if seenAr[fm.Arity] {
+						continue
+					}
+					seenAr[fm.Arity] = true
+					ops, ok := sample(fm)
+					if !ok {
+						continue
+					}
+					a := len(ops)
+					isV := strings.HasPrefix(name, "V")
+					for _, lc := range c06LengthClasses {
+						n := lc.length(a)
+						if n <= a {
+							continue
+						}
+						// budget: the short classes and 256+a for everybody; the other wrap-around lengths for every
+						// function outside the V block and a fraction of the V block; the longest for a handful
+						switch {
+						case lc.name == "len:a+1" || lc.name == "len:a+2" || lc.name == "len:256+a":
+						case lc.name == "len:65536+a":
+							if longest >= 8 && !(thorough && r.chance(1, 40)) {
+								continue
+							}
+							longest++
+						default:
+							if isV && !thorough && !r.chance(1, 6) {
+								continue
+							}
+						}
+						mut := make([]operand.Op, 0, n)
+						mut = append(mut, ops...)
+						for len(mut) < n {
+							if a > 0 && n < 300 && r.chance(1, 2) {
+								mut = append(mut, ops[len(mut)%a]) // copies of the sample
+							} else {
+								mut = append(mut, operand.U8(1))
+							}
+						}
+						if c.Variadic {
+							call(fn, mut, lc.name, true)
+							hist["len-by-name"]++
+						} else {
+							callBuild(fn, mut, lc.name)
+						}
+					}
+				}
+			}
 		}
 
 		// ---- second pass, purity under other histories: for every family some operand lists the first pass saw
@@ -1216,6 +1323,21 @@ func init() {
 		stats["histogram"] = hist
 		return writeJSON(*f.stats, stats)
 	})
+}
+
+// c06LengthClasses: operand-list lengths tried for a matching sample of arity a.
+var c06LengthClasses = []struct {
+	name   string
+	length func(a int) int
+}{
+	{"len:a+1", func(a int) int { return a + 1 }},
+	{"len:a+2", func(a int) int { return a + 2 }},
+	{"len:255", func(a int) int { return 255 }},
+	{"len:256", func(a int) int { return 256 }},
+	{"len:256+a", func(a int) int { return 256 + a }},
+	{"len:257", func(a int) int { return 257 }},
+	{"len:512+a", func(a int) int { return 512 + a }},
+	{"len:65536+a", func(a int) int { return 65536 + a }},
 }
 
 // c06FlagsOf extracts the 4-character flag word (terminal, branch, conditional, cancelling) of a canonical response.
